@@ -3,6 +3,7 @@ import NessaiVerif.Proofs.Quadrature
 import NessaiVerif.Proofs.InformationReal
 import NessaiVerif.Proofs.QuadBracket
 import NessaiVerif.Gen.Increment
+import NessaiVerif.Gen.Trapezoid
 import Mathlib.Analysis.SpecialFunctions.Log.Basic
 /-
 C02 — evidence and posterior weights equal the documented nested-sampling quadrature.
@@ -631,6 +632,51 @@ example :
     ((Gen.Increment.increment (fun x => x) (fun x => x) false
         (Gen.Increment.increment (fun x => x) (fun x => x) false (NSt.init 2 : NSt ℚ) 1 none) 3 none).Z) = 1 := by
   norm_num [Gen.Increment.increment, NSt.init]
+
+/-! ### the trapezoid, `finalise` and the posterior weights -/
+
+theorem avgs_eq_zipWith (f : List K) :
+    avgs f = (List.zipWith (· + ·) f.dropLast f.tail).map (fun x => x / (1 + 1)) := by
+  induction f with
+  | nil => rfl
+  | cons a t ih =>
+    cases t with
+    | nil => rfl
+    | cons b u => simp only [avgs, List.dropLast_cons₂, List.tail_cons, List.zipWith_cons_cons, List.map_cons, ih]
+
+theorem diffs_eq_zipWith (X : List K) : diffs X = List.zipWith (· - ·) X.dropLast X.tail := by
+  induction X with
+  | nil => rfl
+  | cons a t ih =>
+    cases t with
+    | nil => rfl
+    | cons b u => simp only [diffs, List.dropLast_cons₂, List.tail_cons, List.zipWith_cons_cons, ih]
+
+theorem dot_eq_sumL_zipWith (a b : List K) : dot a b = sumL (List.zipWith (· * ·) a b) := by
+  induction a generalizing b with
+  | nil => cases b <;> rfl
+  | cons x xs ih =>
+    cases b with
+    | nil => rfl
+    | cons y ys => simp only [dot, List.zipWith_cons_cons, sumL, ih]
+
+/-- `Gen/Trapezoid.lean` is produced by `harness/pylogvec2lean.py` from the current text of `log_integrate_log_trap`
+(`logaddexp` of neighbours minus `log 2`, `logsubexp` of neighbouring volumes, `logsumexp` of their sum): it is the model's
+trapezoid `trap`, for every pair of vectors -/
+theorem trapezoid_source_eq_model (f X : List K) : Gen.Trapezoid.log_integrate_log_trap f X = trap f X := by
+  simp only [Gen.Trapezoid.log_integrate_log_trap, trap, avgs_eq_zipWith, diffs_eq_zipWith, dot_eq_sumL_zipWith]
+
+/-- `_NSIntegralState.finalise` of the source (closing point: last likelihood repeated, volume 0) is the model's -/
+theorem finalise_source_eq_model (s : St K) : Gen.Trapezoid.finalise s.Ls s.Xs = s.finalise := by
+  simp only [Gen.Trapezoid.finalise, St.finalise, trapezoid_source_eq_model]
+
+/-- `_NSIntegralState.log_posterior_weights` of the source is the model's `postW` -/
+theorem posterior_weights_source_eq_model (s : St K) : Gen.Trapezoid.log_posterior_weights s.Ls s.Xs = s.postW := by
+  simp only [Gen.Trapezoid.log_posterior_weights, St.postW, postWeights, trapezoid_source_eq_model, diffs_eq_zipWith,
+    List.map_zipWith]
+
+example : Gen.Trapezoid.log_integrate_log_trap [(0 : ℚ), 2, 2] [1, 1 / 2, 0] = 3 / 2 := by
+  norm_num [Gen.Trapezoid.log_integrate_log_trap, sumL]
 
 end source
 
